@@ -20,8 +20,8 @@ VERIF = Path(__file__).resolve().parents[2]
 COQ = VERIF / "coq"
 THEORIES = COQ / "theories"
 WORK = VERIF / "work"
-EVIDENCE = VERIF / "evidence"
-REPLAYS = VERIF / "replays"
+EVIDENCE = Path(os.environ.get("A816_EVIDENCE_DIR") or (VERIF / "evidence"))
+REPLAYS = Path(os.environ.get("A816_REPLAY_DIR") or (VERIF / "replays"))
 CORPUS = VERIF / "corpus"
 REPO = Path(os.environ.get("A816_REPO", "/repo"))
 NCPU = os.cpu_count() or 4
